@@ -120,6 +120,16 @@ def run_driver(args, timeout=600):
                             first = json.loads(line)
             except Exception:
                 pass
+            # a driver killed by the crash may leave a half-written last line: drop it
+            try:
+                with open(path, "rb+") as f:
+                    data = f.read()
+                    if data and not data.endswith(b"\n"):
+                        f.seek(0)
+                        f.truncate()
+                        f.write(data[:data.rfind(b"\n") + 1])
+            except OSError:
+                pass
             with open(path, "a") as f:
                 # (an empty trace gets the panic line alone: every trace specification is stuck on it at line 1)
                 f.write(json.dumps({"ev": "panic", "where": lib, "stderr": (err or "")[:1500]}) + "\n")
